@@ -34,6 +34,7 @@ structure CharRep (V P : Type) where
   props : P
   desc : Option (Option String)
   value : Option V
+  deriving DecidableEq
 
 /-- `Characteristic` -/
 structure Char (V P : Type) where
@@ -183,6 +184,7 @@ structure SvcRep (V P : Type) where
   typ : String
   chars : List (CharRep V P)
   primary : Option Bool
+  deriving DecidableEq
 
 /-- `Accessory` (a bridged one, or the top-level one) -/
 structure Accessory (V P : Type) where
@@ -194,6 +196,7 @@ structure Accessory (V P : Type) where
 structure AccRep (V P : Type) where
   aid : Option Nat
   services : List (SvcRep V P)
+  deriving DecidableEq
 
 /-- The driver's accessory: `main` (aid 1, a `Bridge` iff `isBridge`) and the bridge's
     `accessories` dict in insertion order. -/
